@@ -207,3 +207,10 @@ package websocket
 //@   ensures {only.start.starts.an.operation} count(started) <= old(count(started)) + 1 && (count(started) > old(count(started)) ==> !g_readErr && g_type == GraphQLWSMessageTypeStart)
 //@   ensures {only.stop.stops.an.operation} count(stopped) > old(count(stopped)) ==> !g_readErr && g_type == GraphQLWSMessageTypeStop
 //@   modifies *, count(started), count(stopped), count(wroteMsg), count(disconnected)
+
+// the init time-out must be armed for every connection, whatever the options: the handler built by the constructor
+// starts the timer when the connection opens (a silent client is closed with 4408 by startConnectionInitTimer$1)
+//@ func NewProtocolGraphQLTransportWSHandlerWithOptions
+//@   ensures {the.init.timeout.is.armed.when.the.connection.opens.for.every.option.set} result1 == nil ==> result0 != nil && result0.eventHandler.OnConnectionOpened != nil
+//@   ensures {a.time.out.duration.is.configured} result1 == nil && opts.CustomInitTimeOutDuration != 0 ==> result0.connectionInitTimeOutDuration == opts.CustomInitTimeOutDuration
+//@   modifies *
